@@ -216,3 +216,19 @@ Proof.
       * unfold step in E. destruct (l_act (s_l s t)); try discriminate; destruct d; try discriminate; inversion E; subst; congruence.
     + pose proof (step_frame true _ _ _ _ _ _ _ E) as [Fe _ _]. rewrite Fe in Hf' by auto. congruence.
 Qed.
+
+(* writers are served first-come first-served: while writers wait, only the head of the writer queue can become a writer *)
+Theorem writer_fifo_sys : forall pref s lab s' o h c r,
+  sys_step pref s lab = Some (s', o) -> g_ww (s_g s) = (h, c) :: r ->
+  forall t, find t (g_exec (s_g s)) = None -> find t (g_exec (s_g s')) = Some (mkEnt 0 1) -> t = h.
+Proof.
+  intros pref s lab s' o h c r H Ew t Hf Hf'. destruct lab as [k op|k ch]; cbn [sys_step] in H.
+  - destruct (begin_op op (s_l s k)); inversion H; subst. cbn [s_g] in Hf'. congruence.
+  - destruct (step pref k ch (s_g s) (s_l s k)) as [[[g' l'] o']|] eqn:E; inversion H; subst. cbn [s_g] in Hf'.
+    destruct (Nat.eq_dec t k) as [->|Hne].
+    + destruct ch.
+      * destruct (admission pref _ _ _ _ _ _ _ E Hf Hf') as [(He & _)|(_ & _ & [Hq|(c0 & r0 & Hq)])]; try discriminate; rewrite Ew in Hq; [discriminate|].
+        inversion Hq. reflexivity.
+      * unfold step in E. destruct (l_act (s_l s k)); try discriminate; destruct d; try discriminate; inversion E; subst; congruence.
+    + pose proof (step_frame pref _ _ _ _ _ _ _ E) as [Fe _ _]. rewrite Fe in Hf' by auto. congruence.
+Qed.
